@@ -7,6 +7,7 @@
 package faults
 
 import (
+	"sort"
 	"bytes"
 	"fmt"
 	"io"
@@ -388,9 +389,27 @@ func EnumMarkup(text []byte, member string) []Fault {
 		}
 		i += j + 1
 	}
+	// all identifiers of one family (rId1, rId2, ...: same letters, different number) in this
+	// part renamed at once: the ids were regenerated here and nowhere else, every reference
+	// through them now names something that does not exist
+	fam := map[string]int{}
+	for _, o := range occs {
+		fam[strings.TrimRight(string(text[o.pos:o.pos+o.n]), "0123456789")]++
+	}
+	best := ""
+	for _, f := range sortedKeys(fam) {
+		if f != "" && fam[f] >= 2 && (best == "" || fam[f] > fam[best]) {
+			best = f
+		}
+	}
+	if best != "" {
+		out = append(out, mk(0, 0, best, "idref-family-renamed"))
+	}
 	if len(occs) <= 400 {
 		for _, o := range occs {
 			cur := string(text[o.pos : o.pos+o.n])
+			// a reference to something that does not exist
+			out = append(out, mk(o.pos, o.n, "zz"+cur, "idref-attr"))
 			k := 0
 			for _, id := range ids {
 				if id != cur && k < 6 {
@@ -417,6 +436,38 @@ func EnumMarkup(text []byte, member string) []Fault {
 				}
 			}
 		}
+	}
+	return out
+}
+
+func sortedKeys(m map[string]int) []string {
+	var ks []string
+	for k := range m {
+		ks = append(ks, k)
+	}
+	sort.Strings(ks)
+	return ks
+}
+
+// RenameFamily rewrites every attribute value fam<digits> of an XML part to zzfam<digits>.
+func RenameFamily(text []byte, fam string) []byte {
+	var out []byte
+	for i := 0; i < len(text); {
+		if text[i] == '"' && i > 0 && text[i-1] == '=' {
+			j := bytes.IndexByte(text[i+1:], '"')
+			if j >= 0 {
+				val := string(text[i+1 : i+1+j])
+				if strings.HasPrefix(val, fam) && strings.TrimRight(val, "0123456789") == fam && len(val) > len(fam) {
+					out = append(out, '"')
+					out = append(out, "zz"+val...)
+					out = append(out, '"')
+					i += j + 2
+					continue
+				}
+			}
+		}
+		out = append(out, text[i])
+		i++
 	}
 	return out
 }
@@ -498,6 +549,10 @@ func ApplyPackage(p *officew.Package, fs []Fault) []byte {
 			continue
 		}
 		if i := q.Find(f.M); i >= 0 {
+			if f.Kind == "idref-family-renamed" {
+				q.Members[i].Data = RenameFamily(q.Members[i].Data, f.S)
+				continue
+			}
 			q.Members[i].Data = ApplyBytes(q.Members[i].Data, Fault{Kind: "replace", A: f.A, B: f.B, S: f.S})
 		}
 	}
